@@ -84,6 +84,7 @@ impl Ev {
             "jret" => json!({"e": "jret", "r": self.r}),
             "wexit" => json!({"e": "wexit", "w": self.w}),
             "wpanic" => json!({"e": "wpanic", "w": self.w}),
+            "rdrop" => json!({"e": "rdrop", "id": self.id}),
             "bodyerr" => json!({"e": "bodyerr", "id": self.id}),
             other => json!({"e": other, "id": self.id}),
         };
